@@ -90,6 +90,8 @@ type run struct {
 	blocked     map[string]bool // senders released from "prelock" that did not come back: waiting for the send lock
 	broken      bool            // a second sender got past "prelock" while another one was between "idgen" and its return
 	nprobes     int
+	nearly      int  // hand-overs tried before the owner listened (doEarly)
+	aborted     bool // a direct oracle failed in a way that leaves nothing to schedule
 	nblocked    int
 	clockV      [][2]string // findings of the per-send clock oracle (key, text)
 	lowWords    []uint32    // low 32 bits of the ids that came from the clock
@@ -796,6 +798,72 @@ func (r *run) doProbe(actor string) {
 
 var probeTimeout = 40 * time.Millisecond
 
+// earlyOwner: the receive loop is parked right before it hands a result over ("deliver") and the owner of that
+// result has written its request but has not returned from sendPacket yet (parked at "written"): it does not listen
+// on its channel. Returns that owner, nil if the situation is another one.
+func (r *run) earlyOwner() *callerState {
+	p := r.sc.Parked(r.rx)
+	if p == nil || p.Point != "deliver" || r.broken {
+		return nil
+	}
+	o := r.ownerOf(p.ID)
+	if o == nil || r.inRecv[o.name] {
+		return nil
+	}
+	if q := r.sc.Parked(o.name); q == nil || q.Point != "written" {
+		return nil
+	}
+	return o
+}
+
+// doEarly lets the receive loop go on with the hand-over BEFORE the owner listens. The response channel is
+// unbuffered and the owner is the only reader: the loop has to wait in its send (no arrival within the probe
+// time-out) until the owner has returned from sendPacket and receives; then both go on exactly as if the owner
+// had been first, and that is how the two actions are recorded (step owner, step rx): for the model the
+// rendezvous is one step which is enabled when the owner listens. A loop which comes back without the owner
+// has given the result to nobody (or to somebody else): the call can never return it.
+func (r *run) doEarly() {
+	o := r.earlyOwner()
+	p := r.sc.Parked(r.rx)
+	id := p.ID
+	r.nearly++
+	r.sc.Release(r.rx)
+	if ar, ok := r.sc.TryAwait(r.rx, probeTimeout); ok {
+		r.out.line("V", strconv.Itoa(r.idx), "C09", "result-handed-over-while-owner-not-listening",
+			fmt.Sprintf("the receive loop went on from the hand-over of the result for request %s to '%s' while caller %s had not "+
+				"returned from sendPacket (nobody was receiving on the response channel): the result is lost or went elsewhere",
+				r.norm(id), ar.Point, o.name))
+		r.aborted = true
+		return
+	}
+	// the owner returns from sendPacket (the send lock is released) and receives
+	r.relAt[o.name] = hnow()
+	r.sc.Release(o.name)
+	a0 := r.await(o.name)
+	r.record("step "+o.name+" 0", strings.Join(r.onArrival(o.name, a0), " "))
+	r.afterUnlock()
+	var items []string
+	a1 := r.await(r.rx)
+	items = append(items, r.onArrival(r.rx, a1)...)
+	var waiting []string
+	for _, c := range r.callers {
+		if r.inRecv[c.name] {
+			waiting = append(waiting, c.name)
+		}
+	}
+	a2, err := r.sc.AwaitAny(waiting, watchdog)
+	if err != nil {
+		st := ""
+		if e, ok := err.(*csched.ErrStuck); ok {
+			st = e.Stack
+		}
+		panic(stuck{what: "receiver-of-" + r.rx, stack: st})
+	}
+	items = append(items, r.onArrival(a2.Actor, a2)...)
+	r.record("step rx 0", strings.Join(items, " "))
+	r.afterUnlock()
+}
+
 // doStep releases one enabled actor (and its rendezvous partner) and waits for the arrivals.
 func (r *run) doStep(actor string) {
 	p := r.sc.Parked(actor)
@@ -1174,7 +1242,7 @@ func (r *run) finish() {
 	seq, _, rk, hk := r.cl.VerifSnapshot()
 	sort.Ints(rk)
 	r.out.line("F", idx, fmt.Sprintf("seq=%d table=%d hints=%d", seq, len(rk), len(hk)))
-	r.out.line("X", idx, fmt.Sprintf("skew=%s bumps=%d bumpmax=%d probes=%d blocked=%d broken=%v seq0=%d wiresrv=%d wiredeliver=%d highseq=%d", r.skew, r.bumps, r.bumpMax, r.nprobes, r.nblocked, r.broken, r.seq0, r.wireSrv, r.wireDeliver, r.highSeq))
+	r.out.line("X", idx, fmt.Sprintf("skew=%s bumps=%d bumpmax=%d probes=%d blocked=%d early=%d broken=%v seq0=%d wiresrv=%d wiredeliver=%d highseq=%d", r.skew, r.bumps, r.bumpMax, r.nprobes, r.nblocked, r.nearly, r.broken, r.seq0, r.wireSrv, r.wireDeliver, r.highSeq))
 	r.out.line("E", idx, r.status)
 }
 
